@@ -11,7 +11,6 @@ NA = {
  "C03": "the classic compiler is CLVM data interpreted at compile time; its meaning lies outside any analysis of the Rust program (DESIGN 4)",
  "C04": "soundness of CLVM rewrite rules for any args is an algebraic identity over evaluator semantics, not a shape-of-code fact (DESIGN 4)",
  "C09": "printer/reader inverse over all byte strings is about the values of two character-class automata (DESIGN 4)",
- "C12": "faithfulness of each trace row is a per-step semantic statement about executions (DESIGN 4)",
  "C15": "source locations are column arithmetic per input byte; numeric, per input (DESIGN 4)",
  "C16": "partial evaluator vs code generator is an equivalence of two interpreters over values (DESIGN 4)",
  "C17": "soundness of the unused-argument report is non-interference over pairs of runs (DESIGN 4)",
@@ -19,6 +18,19 @@ NA = {
 PENDING = "static rule designed in DESIGN section 3; check not yet registered (under construction)"
 
 CHECKS = {
+ "C12": {
+  "text": "PARTIAL. CldbRun::step is the only producer of trace rows. Decided on every path of its MIR: each reported field "
+          "derives from the matching component of the RunStep transition (Value<-OpResult.1, Final<-Done.1, Failure<-RunErr.1, "
+          "Throw<-RunExn.1, Operator<-Op.0, Row<-the row counter, context = (Op.0, Op.1, Op.2) in order); every terminal "
+          "transition inserts its Final/Failure/Throw entry, marks the run ended and produces a row; the row counter is "
+          "incremented exactly when a row is returned (consecutive numbering); the next state is the transition just "
+          "computed, stored before every return. Quantifies over every step of every execution, which sampled traces cannot.",
+  "note": "NOT decided (value-level): that reported values equal the consensus evaluator's (that is C06's undecided part), "
+          "cldb_hierarchy's grouping by function, hex-supplied vs source-form equivalence. Breaking a decided clause breaks "
+          "the property; satisfying them does not establish it.",
+  "technique": "MIR value-flow (pure slices to enum downcasts) + must-pass-through / dominance",
+  "design": "3.12",
+ },
  "C06": {
   "text": "PARTIAL. Sibling comparison of the stepping evaluator's own operator handling with the consensus evaluator, both "
           "recovered from MIR on the current sources: the argument counts it enforces for i/c/a/f/r equal the const-generic N of "
